@@ -366,6 +366,11 @@ func (w WS) Expect() (outs map[string]map[string]OutFile, bodies map[string]stri
 			m[root+"/sub/tool.sh"] = OutFile{Content: "#!/bin/sh\necho tool\n", Exec: true}
 			m[root+"/empty"] = OutFile{Dir: true}
 			m[root+"/link"] = OutFile{Link: "main.txt"}
+			// one entry per resolved input: the set of entries moves with glob membership
+			m[root+"/in"] = OutFile{Dir: true}
+			for _, rel := range w.ResolvedInputs(t) {
+				m[root+"/in/"+strings.ReplaceAll(rel, "/", "_")] = OutFile{Content: w.Files[path.Join(t.Pkg, rel)]}
+			}
 		}
 		outs[l] = m
 	}
@@ -397,6 +402,7 @@ func (w WS) Command(t *Target) string {
 	if t.SlowMs > 0 {
 		fmt.Fprintf(&b, "sleep %d.%03d\n", t.SlowMs/1000, t.SlowMs%1000)
 	}
+	fmt.Fprintf(&b, "if [ -f \"$EXT/selfkill.%s\" ]; then printf 'F %%s\\n' \"$GROG_TARGET\" >> \"$TRACE\"; kill -KILL $$; fi\n", id)
 	fmt.Fprintf(&b, "if [ -f \"$EXT/fail.%s\" ]; then printf 'F %%s\\n' \"$GROG_TARGET\" >> \"$TRACE\"; echo boom >&2; exit 3; fi\n", id)
 	// body
 	b.WriteString("body=\"$(mktemp)\"\n{\n")
@@ -449,7 +455,10 @@ func (w WS) Command(t *Target) string {
 	}
 	for _, d := range t.OutDirs {
 		q := shQuote(d)
-		fmt.Fprintf(&b, "rm -rf %s; mkdir -p %s/sub %s/empty; cp \"$body\" %s/main.txt; cp \"$body\" %s/sub/copy.txt; printf '#!/bin/sh\\necho tool\\n' > %s/sub/tool.sh; chmod 755 %s/sub/tool.sh; chmod 644 %s/main.txt %s/sub/copy.txt; ln -s main.txt %s/link\n", q, q, q, q, q, q, q, q, q, q)
+		fmt.Fprintf(&b, "rm -rf %s; mkdir -p %s/sub %s/empty; cp \"$body\" %s/main.txt; cp \"$body\" %s/sub/copy.txt; printf '#!/bin/sh\\necho tool\\n' > %s/sub/tool.sh; chmod 755 %s/sub/tool.sh; chmod 644 %s/main.txt %s/sub/copy.txt; ln -s main.txt %s/link; mkdir -p %s/in\n", q, q, q, q, q, q, q, q, q, q, q)
+		if len(t.Inputs) > 0 {
+			fmt.Fprintf(&b, "%s | while IFS= read -r f; do cp \"$f\" %s/in/\"$(printf '%%s' \"$f\" | tr / _)\"; chmod 644 %s/in/\"$(printf '%%s' \"$f\" | tr / _)\"; done\n", enumerateInputsSh(t), q, q)
+		}
 	}
 	b.WriteString("rm -f \"$body\"\n")
 	for _, c := range t.Checks {
@@ -458,7 +467,7 @@ func (w WS) Command(t *Target) string {
 			if content == "" {
 				content = "ok"
 			}
-			fmt.Fprintf(&b, "if [ ! -f \"$EXT/noestablish.%s\" ]; then printf '%%s' %s > \"$EXT/marker.%s\"; fi\n", c.Marker, shQuote(content), c.Marker)
+			fmt.Fprintf(&b, "if [ -f \"$EXT/wrongestablish.%s\" ]; then printf 'not-what-the-check-wants' > \"$EXT/marker.%s\"; elif [ ! -f \"$EXT/noestablish.%s\" ]; then printf '%%s' %s > \"$EXT/marker.%s\"; fi\n", c.Marker, c.Marker, c.Marker, shQuote(content), c.Marker)
 		}
 	}
 	fmt.Fprintf(&b, "printf 'E %%s\\n' \"$GROG_TARGET\" >> \"$TRACE\"\n")
